@@ -51,7 +51,11 @@ func buildFamily(family, tier string, seed int64) []*Scenario {
 		out = append(out, g.famCombo("fz", n(12, 60), []string{"email", "url", "uuid", "alpha", "numeric", "ipv4", "ipv6"})...)
 	case "c09":
 		out = g.famShapes("s", n(25, 100), n(6, 25))
-	case "c07", "random":
+	case "c08":
+		out = g.famC08("w", n(30, 150))
+	case "c07":
+		out = append(g.corpusC07("r"), g.famRandom("r", n(24, 120), 8)...)
+	case "random":
 		out = g.famRandom("r", n(24, 120), 8)
 	case "all":
 		out = append(out, g.famMatrix("m", []string{"required", "gt", "gte", "lt", "lte", "minlength", "maxlength", "length", "minitems", "maxitems", "enum", "email", "url", "uuid", "alpha", "numeric", "ipv4", "ipv6"}, allTypes, 14, false)...)
